@@ -122,6 +122,7 @@ type spec struct {
 	elemImp        bool // the element segment's item is the first IMPORTED function instead of the module's own id
 	aliasImp       bool // the mutable i32 global is imported a second time under another index
 	aliasOtherName bool // ... through the exporter's second export name of the same global
+	funcImpLast    bool // the import section lists memory, table and globals BEFORE the functions (indexes are per kind)
 	capMut         bool // a private global is initialised with global.get of the imported mutable i32 global
 	elemNull       bool // the element segment has a second item, ref.null, which clears the slot after the first
 	ownInit        bool // own mutable i32 global initialised from the imported immutable global
@@ -183,6 +184,10 @@ func build(s *spec, specs []*spec) []byte {
 	m := &wasmb.Module{}
 	i32 := []wasmb.ValType{wasmb.I32}
 	modName := func(j int) string { return specs[j].name }
+	if s.funcImpLast {
+		// type 0 is a type of its own: nothing that defaults to "type index 0" matches a real function
+		m.AddType([]wasmb.ValType{wasmb.F64, wasmb.I64}, []wasmb.ValType{wasmb.F32})
+	}
 	// imports: functions first (index space), then others
 	for k, j := range s.impFn {
 		p, r := i32, i32
@@ -430,6 +435,18 @@ func build(s *spec, specs []*spec) []byte {
 	if s.oobSeg {
 		m.Datas = append(m.Datas, wasmb.Data{Offset: wasmb.ConstI32(0x7ffffff0), Bytes: []byte{1, 2, 3, 4}})
 	}
+	if s.funcImpLast {
+		// index spaces are per kind: the order BETWEEN kinds in the import section changes no index
+		var fn, other []wasmb.Import
+		for _, im := range m.Imports {
+			if im.Kind == wasmb.KindFunc {
+				fn = append(fn, im)
+			} else {
+				other = append(other, im)
+			}
+		}
+		m.Imports = append(other, fn...)
+	}
 	return m.Encode()
 }
 
@@ -612,6 +629,7 @@ func (r *runner) instantiate(twisted bool) {
 	s.capMut = t.Chance(1, 2)
 	s.aliasImp = t.Chance(1, 2)
 	s.aliasOtherName = t.Chance(1, 2)
+	s.funcImpLast = t.Chance(1, 2)
 	s.elemImp = t.Chance(1, 3)
 	s.ownInit = t.Chance(1, 2)
 	s.start = t.Weighted(6, 2, 1)
